@@ -61,6 +61,8 @@ def generate(seed, tier):
             "fields": fields, "checks": []}
     if fmt in ("delimited", "fixed"):
         spec["line_delimiter"] = swarm.choice(["lf", "crlf", "cr", "any"] + (["none"] if fmt == "fixed" else []))
+        if spec["line_delimiter"] == "any":
+            spec["eol"] = swarm.choice(["\n", "\r", "\r\n"])
         spec["encoding"] = swarm.choice(["utf-8", "utf-8", "ascii"])
         if fmt == "delimited" and swarm.random() < 0.4:
             # an escape character that differs from the quote character (no cell of this workload needs escaping)
@@ -103,7 +105,7 @@ def generate(seed, tier):
 
 
 def _eol(spec):
-    return {"lf": "\n", "cr": "\r", "crlf": "\r\n", "any": "\n", "none": ""}[spec.get("line_delimiter", "lf")]
+    return {"lf": "\n", "cr": "\r", "crlf": "\r\n", "any": spec.get("eol", "\n"), "none": ""}[spec.get("line_delimiter", "lf")]
 
 
 def stored_bytes(scenario):
